@@ -343,6 +343,10 @@ type lockAnalysis struct {
 func (c *C) lockAn() *lockAnalysis {
 	la := &lockAnalysis{c: c, flows: map[*ssa.Function]*LockFlow{}, reqs: map[*ssa.Function][]lockReq{}, closureEntry: map[*ssa.Function]Set{}}
 	la.fns = c.P.allFuncs("memdb")
+	if c.la != nil {
+		return c.la
+	}
+	c.la = la
 	return la
 }
 
